@@ -937,3 +937,135 @@ pub fn fam_mixed<C: Checker>(
     });
 }
 
+
+// ---------------------------------------------------------------------------------------------
+// C19: lossy parsing changes only precision
+// ---------------------------------------------------------------------------------------------
+
+pub struct LossyChecker<'a, T: Flt> {
+    pub rep: &'a Report,
+    pub sub: Subject<T>,
+    pub subl: Subject<T>,
+    pub g: Grammar,
+    pub judge: Judge,
+    pub fam: Fam<'a>,
+    pub decimal: bool,
+    _t: PhantomData<T>,
+}
+
+impl<'a, T: Flt> LossyChecker<'a, T> {
+    pub fn new(rep: &'a Report, sub: &Subject<T>, subl: &Subject<T>, spell: &Spell, fam: &str) -> Self {
+        LossyChecker {
+            rep,
+            sub: sub.clone(),
+            subl: subl.clone(),
+            g: spell.grammar(),
+            judge: Judge::new(spell.radix, spell.base),
+            fam: Fam::new(rep, &format!("{}:{}:{}", T::NAME, sub.name, fam)),
+            decimal: spell.radix == 10 && spell.base == 10,
+            _t: PhantomData,
+        }
+    }
+    fn show<V: std::fmt::Debug>(r: &Result<PRes<V>, String>) -> String {
+        match r {
+            Ok(Ok(v)) => format!("Ok({:?})", v),
+            Ok(Err(e)) => format!("Err({})", show_err(e)),
+            Err(p) => format!("panic({})", p),
+        }
+    }
+}
+
+impl<'a, T: Flt> Checker for LossyChecker<'a, T> {
+    fn check(&mut self, s: &[u8]) {
+        self.fam.states += 1;
+        self.fam.cases += 1;
+        let (sub, subl) = (self.sub.clone(), self.subl.clone());
+        // every string (grammatical or not): same acceptance, same errors, same counts
+        self.fam.calls += 4;
+        let a = guarded(|| (sub.parse)(s)).map(|r| r.map(|v| v.to_bits64()));
+        let b = guarded(|| (subl.parse)(s)).map(|r| r.map(|v| v.to_bits64()));
+        let pa = guarded(|| (sub.parse_partial)(s)).map(|r| r.map(|(v, n)| (v.to_bits64(), n)));
+        let pb = guarded(|| (subl.parse_partial)(s)).map(|r| r.map(|(v, n)| (v.to_bits64(), n)));
+        let key = |e: &str| format!("{}|{}|{}|{}", T::NAME, e, sub.name, hex(s));
+        let same_shape = match (&a, &b) {
+            (Ok(Ok(_)), Ok(Ok(_))) => true,
+            (Ok(Err(x)), Ok(Err(y))) => x == y,
+            _ => false,
+        };
+        if !same_shape {
+            self.rep.violation(key("parse"), format!("C19 [{}] {:?}: lossless {} vs lossy {}", sub.name, show_trunc(s), Self::show(&a), Self::show(&b)));
+            return;
+        }
+        let same_partial = match (&pa, &pb) {
+            (Ok(Ok((_, n))), Ok(Ok((_, m)))) => n == m,
+            (Ok(Err(x)), Ok(Err(y))) => x == y,
+            _ => false,
+        };
+        if !same_partial {
+            self.rep.violation(key("parse_partial"), format!("C19 [{}] {:?}: lossless partial {} vs lossy partial {}", sub.name, show_trunc(s), Self::show(&pa), Self::show(&pb)));
+            return;
+        }
+        let (va, vb) = match (&a, &b) {
+            (Ok(Ok(x)), Ok(Ok(y))) => (*x, *y),
+            _ => {
+                self.fam.bump("rejected_by_both");
+                return;
+            }
+        };
+        // complete and partial lossy values agree when the whole input is consumed
+        if let Ok(Ok((pv, n))) = &pb {
+            if *n == s.len() && *pv != vb {
+                self.rep.violation(key("parse_partial"), format!("C19 [{}] {:?}: lossy parse {:#x} but lossy parse_partial {:#x}", sub.name, show_trunc(s), vb, pv));
+                return;
+            }
+        }
+        let f = T::FMT;
+        if f.is_nan(va) || f.is_nan(vb) {
+            if f.is_nan(va) != f.is_nan(vb) {
+                self.rep.violation(key("parse"), format!("C19 [{}] {:?}: NaN-ness differs", sub.name, show_trunc(s)));
+            }
+            return;
+        }
+        self.fam.nontrivial += 1;
+        if va != vb {
+            self.fam.bump("lossy_differs");
+        }
+        // literal zeros unchanged (infinity *strings* are covered by C15; an input that rounds to
+        // infinity may come back as the largest finite float: that is its neighbour)
+        if let Some(x) = parse_full(&self.g, s) {
+            if x.digits.iter().all(|&c| c == b'0') && va != vb {
+                self.rep.violation(key("parse"), format!("C19 [{}] {:?}: literal zero changed by lossy: {:#x} vs {:#x}", sub.name, show_trunc(s), va, vb));
+                return;
+            }
+        }
+        // within one ULP of the correctly rounded value (exact arithmetic)
+        if let Some(x) = parse_full(&self.g, s) {
+            if self.fam.want_sample() {
+                self.rep.sample(format!("{} lossy {} -> {:#x} (lossless {:#x})", self.fam.name, show_trunc(s), vb, va));
+            }
+            match self.judge.ulp_distance(f, &x, vb, 1) {
+                Some(_) => {}
+                None => {
+                    let exp = self.judge.expected_bits(f, &x);
+                    self.rep.violation(key("parse"), format!("C19 [{}] {:?}: lossy {:#x} is more than 1 ULP from the correctly rounded {:#x}", sub.name, show_trunc(s), vb, exp));
+                    return;
+                }
+            }
+            // documented exact fast path: short significand, small exponent => unchanged
+            if self.decimal {
+                let nd = x.digits.iter().skip_while(|&&c| c == b'0').count();
+                let e = x.exp - x.frac_len as i128;
+                let (maxd, maxe) = if f.mant_bits == 52 { (15, 22) } else { (7, 10) };
+                if nd <= maxd && e.abs() <= maxe && (x.exp - x.frac_len as i128 + nd as i128).abs() <= maxe {
+                    self.fam.bump("fast_path_precondition");
+                    if va != vb {
+                        self.rep.violation(key("parse"), format!("C19 [{}] {:?}: exact fast-path input changed by lossy: {:#x} vs {:#x}", sub.name, show_trunc(s), va, vb));
+                    }
+                }
+            }
+        }
+    }
+    fn done(self) {
+        self.fam.finish();
+    }
+}
